@@ -15,6 +15,11 @@
 (*    => stream stored stripped of schema and EOS; dictionary only below   *)
 (*    the top level => full stream through the IPC writer; otherwise the   *)
 (*    record-batch-payload fast path, which emits no dictionary messages); *)
+(*    a schema is a SEQUENCE of column classes, the classifiers of the     *)
+(*    writer (schemaHasTopLevelDictionary, schemaHasNestedDictionary) and  *)
+(*    of the reader (ReadBatch: schemaHasTopLevelDictionary) walk that     *)
+(*    sequence, and the layout the writer leaves in the region is kept     *)
+(*    apart from the layout the reader assumes;                            *)
 (*  - the segment memory, unit by unit: a write leaves the stream of that  *)
 (*    write in its region, a free leaves the bytes where they are;         *)
 (*  - the pointer strings, parsed as the code parses them                  *)
@@ -38,7 +43,9 @@ CONSTANTS
     Sizes,        \* serialized stream lengths (units) offered to the write actions
     MaxAllocs,    \* capacity of the allocation table
     MaxWrites,    \* write actions are offered until this many writes succeeded (keeps the model finite)
-    Schemas,      \* schema classes, subset of AllSchemas
+    Schemas,      \* named schema classes, subset of AllSchemas
+    ColClasses,   \* column classes of the enumerated schemas, subset of AllColClasses
+    MaxCols,      \* every sequence of 1..MaxCols column classes over ColClasses is a schema (0: none)
     RowClasses,   \* subset of {"zero","one","many"}
     MdClasses,    \* custom batch metadata: subset of {"none","some","collide"}
     PtrClasses,   \* pointer (offset,length) string classes, subset of AllPtrClasses
@@ -70,7 +77,12 @@ AllPtrClasses ==
      \* inside the segment but not a written region (nothing promised beyond safety)
      "in_header", "len0", "short", "long"}
 
+\* column classes: p = fixed-width, s = string/binary, n = list/struct/map without a dictionary,
+\*                 t = dictionary column, d = list/struct/map with a dictionary somewhere below
+AllColClasses == {"p", "s", "n", "t", "d"}
+
 ASSUME Schemas \subseteq AllSchemas /\ PtrClasses \subseteq AllPtrClasses
+ASSUME ColClasses \subseteq AllColClasses /\ MaxCols \in Nat
 
 --------------------------------------------------------------------------
 (* Scaled-down integers.                                                   *)
@@ -83,24 +95,75 @@ H    == M \div 2                  \* plays 2^63
 Abs(o) == HdrT + T * o            \* data-area unit offset -> absolute tick offset
 
 --------------------------------------------------------------------------
-(* Schema classes: which write path and which stored layout.               *)
-HasTopDict(sc)    == sc \in {"topdict", "mixed"}
-HasNestedDict(sc) == sc \in {"dict_struct", "dict_list", "dict_map", "dict_deep", "mixed", "mixed_nested"}
+(* Schemas.  A schema is a descriptor [name, cols]: cols is the sequence of *)
+(* column classes in field order.  The named classes stand for the column   *)
+(* groups the driver draws for them (each group one or more columns, the     *)
+(* groups in ANY order -- see ClassificationOrderIndependent); a "seq"       *)
+(* schema has exactly the columns of its sequence, in that order.            *)
+NamedCols(nm) ==
+    CASE nm = "plain"        -> <<"p">>
+      [] nm = "strings"      -> <<"s", "p">>
+      [] nm = "nested"       -> <<"n">>
+      [] nm = "topdict"      -> <<"t">>
+      [] nm = "dict_struct"  -> <<"d">>
+      [] nm = "dict_list"    -> <<"d">>
+      [] nm = "dict_map"     -> <<"d">>
+      [] nm = "dict_deep"    -> <<"d">>
+      [] nm = "mixed"        -> <<"p", "s", "t", "d", "n">>
+      [] nm = "mixed_nested" -> <<"p", "s", "n", "d">>
 
-\* AllocateAndWrite's three-way branch
-Path(sc) == IF HasTopDict(sc) THEN "serialize_stripped"
-            ELSE IF HasNestedDict(sc) /\ "fast_path_for_nested" \notin Variant THEN "serialize_full"
-            ELSE "payload_fast_path"
-\* what another implementation finds in the region
-Layout(sc) == IF HasTopDict(sc) THEN "stripped" ELSE "full"
+\* explicit tuples (Append), not function values: they end up in the state variable info
+RECURSIVE ColSeqsOfLen(_)
+ColSeqsOfLen(k) == IF k = 0 THEN {<<>>}
+                   ELSE {Append(q, c) : q \in ColSeqsOfLen(k - 1), c \in ColClasses}
+ColSeqs == UNION {ColSeqsOfLen(k) : k \in 1..MaxCols}
+
+SchemaDescs == {[name |-> nm, cols |-> NamedCols(nm)] : nm \in Schemas}
+               \cup {[name |-> "seq", cols |-> q] : q \in ColSeqs}
+
+(* The classifiers, the way vgirpc/shm.go walks schema.Fields().             *)
+ColIsDict(c)  == c = "t"              \* f.Type.(*arrow.DictionaryType)
+ColHasDict(c) == c \in {"t", "d"}     \* typeHasDictionary(f.Type)
+MinOf(S) == CHOOSE i \in S : \A j \in S : i <= j
+
+\* schemaHasTopLevelDictionary: some top-level field is a dictionary
+SchemaHasTopDict(cols) == \E i \in 1..Len(cols) : ColIsDict(cols[i])
+\* schemaHasNestedDictionary: no top-level dictionary field, and some field holds one below
+\* (deviation "nested_single_pass": one pass that lets the FIRST dictionary-bearing field decide)
+SchemaHasNestedDict(cols) ==
+    IF "nested_single_pass" \in Variant
+    THEN LET D == {i \in 1..Len(cols) : ColHasDict(cols[i])}
+         IN D # {} /\ ~ColIsDict(cols[MinOf(D)])
+    ELSE ~SchemaHasTopDict(cols) /\ \E i \in 1..Len(cols) : ColHasDict(cols[i])
+
+\* AllocateAndWrite's three-way branch (deviation "nested_first": the two tests swapped)
+Path(sd) ==
+    LET top    == SchemaHasTopDict(sd.cols)
+        nested == SchemaHasNestedDict(sd.cols) /\ "fast_path_for_nested" \notin Variant IN
+    IF "nested_first" \in Variant
+    THEN (IF nested THEN "serialize_full" ELSE IF top THEN "serialize_stripped" ELSE "payload_fast_path")
+    ELSE (IF top THEN "serialize_stripped" ELSE IF nested THEN "serialize_full" ELSE "payload_fast_path")
+\* what the write leaves in the region
+Layout(sd) == IF Path(sd) = "serialize_stripped" THEN "stripped" ELSE "full"
+\* what ReadBatch takes the region for, from the schema it is handed
+ReaderLayout(sd) == IF SchemaHasTopDict(sd.cols) THEN "stripped" ELSE "full"
 \* the fast path emits no dictionary messages: a stream with dictionary-encoded
-\* children written that way cannot be decoded to the batch
-Intact(sc) == ~(Path(sc) = "payload_fast_path" /\ HasNestedDict(sc))
+\* columns or children written that way cannot be decoded to the batch
+Intact(sd) == ~(Path(sd) = "payload_fast_path" /\ \E i \in 1..Len(sd.cols) : ColHasDict(sd.cols[i]))
+
+\* Which path a schema takes and how its region is read depends on WHICH column classes
+\* occur, never on where they stand or how often (checked as an invariant by the MC cfgs).
+ColSet(cols) == {cols[i] : i \in 1..Len(cols)}
+ClassificationOrderIndependent ==
+    \A a, b \in SchemaDescs :
+        ColSet(a.cols) = ColSet(b.cols) =>
+            /\ Path(a) = Path(b) /\ Layout(a) = Layout(b)
+            /\ ReaderLayout(a) = ReaderLayout(b) /\ Intact(a) = Intact(b)
 
 (* estimateSerializedSize = top-level buffer bytes + 4096.  ex = by how many  *)
 (* units the estimate exceeds the real stream length (0: estimate <= length). *)
 (* Only flat schemas with many rows can be made to exceed by a whole unit.    *)
-EstExtra(sc, rw) == IF sc \in {"plain", "strings"} /\ rw = "many" THEN {0, 1} ELSE {0}
+EstExtra(sd, rw) == IF sd.name \in {"plain", "strings"} /\ rw = "many" THEN {0, 1} ELSE {0}
 
 \* MaybeWriteToShm's size gate (top-level buffer bytes against the threshold)
 GateClasses(rw) == IF rw = "many" THEN {"below", "above"} ELSE {"below"}
@@ -238,7 +301,7 @@ DecodeM(m, inf, a, e, w) ==
          ELSE LET x == c[1] IN
               IF /\ StreamAtM(m, inf, x) /\ inf[x].off = UnitOf(a)
                  /\ e >= a + T * inf[x].len
-                 /\ Layout(inf[x].sc) = Layout(inf[w].sc)
+                 /\ Layout(inf[x].sc) = ReaderLayout(inf[w].sc)
               THEN (IF Intact(inf[x].sc) THEN [r |-> "batch", x |-> x] ELSE [r |-> "error", x |-> 0])
               ELSE [r |-> "error", x |-> 0]
 
@@ -289,7 +352,7 @@ TableObs(t) == t
 \* the region of write w as it ends up in memory
 WriteMem(m, w, o, n) == [u \in 0..DataUnits-1 |-> IF u >= o /\ u < o + n THEN <<w, u - o + 1>> ELSE m[u]]
 
-ClassArgs(sc, rw, md, n, ex) == [sc |-> sc, rows |-> rw, md |-> md, n |-> n, ex |-> ex]
+ClassArgs(sd, rw, md, n, ex) == [sc |-> sd.name, cols |-> sd.cols, rows |-> rw, md |-> md, n |-> n, ex |-> ex]
 
 (* AllocateAndWrite(batch) called directly.                                 *)
 WriteBatch(sc, rw, md, n, ex) ==
@@ -407,7 +470,7 @@ Init ==
                   exp |-> [table |-> <<>>]] >>
 
 Next ==
-    \/ \E sc \in Schemas, rw \in RowClasses, md \in MdClasses, n \in Sizes :
+    \/ \E sc \in SchemaDescs, rw \in RowClasses, md \in MdClasses, n \in Sizes :
           \E ex \in EstExtra(sc, rw) :
              \/ ("direct" \in Writers /\ WriteBatch(sc, rw, md, n, ex))
              \/ ("maybe" \in Writers /\ \E g \in GateClasses(rw) : MaybeWrite(sc, rw, md, n, ex, g))
@@ -485,5 +548,5 @@ ASSUME ClassesMeanWhatTheySay
 View == <<table, mem, info>>
 \* coarser view for the table-interaction cfgs: of past writes keep only what the model's
 \* future depends on (classes are covered one write at a time under View)
-ViewT == <<table, mem, [w \in 1..Len(info) |-> <<Layout(info[w].sc), Intact(info[w].sc), info[w].off, info[w].len>>]>>
+ViewT == <<table, mem, [w \in 1..Len(info) |-> <<Layout(info[w].sc), ReaderLayout(info[w].sc), Intact(info[w].sc), info[w].off, info[w].len>>]>>
 =============================================================================
